@@ -734,6 +734,18 @@ def _minmax(ex, node, st, is_min):
         seq = args[0]
         if isinstance(seq, PyTuple):
             args = seq.items
+        elif isinstance(seq.ty, TList) and seq.ty.elem in (TInt, TReal):
+            # extremum of a symbolic sequence: a bound that is attained
+            ty = seq.ty
+            n  = ty.len(seq.term)
+            ex.fail(st, n <= 0, 'ValueError')
+            m  = fresh(ty.elem, 'min' if is_min else 'max')
+            i, w = z3.Int(C.fresh_name('i')), z3.Int(C.fresh_name('w'))
+            e  = z3.Select(ty.arr(seq.term), i)
+            st.assume(z3.ForAll([i], z3.Implies(z3.And(0 <= i, i < n),
+                      (m.term <= e) if is_min else (m.term >= e))))
+            st.assume(z3.And(0 <= w, w < n, z3.Select(ty.arr(seq.term), w) == m.term))
+            return m
         else:
             raise OutsideSubset('min/max over symbolic sequence')
     vals = [ex.num(st, a) for a in args]
@@ -971,6 +983,13 @@ def _b_any_all(is_any):
                     return Val(TBool, z3.Exists([i], z3.And(rng, t)))
                 return Val(TBool, z3.ForAll([i], z3.Implies(rng, t)))
         v = ex.ev(arg, st)
+        if isinstance(v.ty, TList):
+            i = z3.Int(C.fresh_name('i'))
+            t = truthy(Val(v.ty.elem, z3.Select(v.ty.arr(v.term), i)))
+            rng = z3.And(0 <= i, i < v.ty.len(v.term))
+            if is_any:
+                return Val(TBool, z3.Exists([i], z3.And(rng, t)))
+            return Val(TBool, z3.ForAll([i], z3.Implies(rng, t)))
         if isinstance(v, PyTuple):
             ts = [truthy(i) for i in v.items]
             return Val(TBool, (z3.Or(*ts) if is_any else z3.And(*ts))
